@@ -17,7 +17,7 @@ def title(readme):
 os.makedirs(OUT, exist_ok=True)
 rows = []
 for d in sorted(os.listdir(SRC)):
-    m = re.fullmatch(r"(A\d+)-out", d)
+    m = re.fullmatch(r"([ABW]\d+)-out", d)
     if not m:
         continue
     for mm in sorted(os.listdir(os.path.join(SRC, d))):
@@ -38,6 +38,11 @@ for d in sorted(os.listdir(SRC)):
                 "alarms": sorted(k for k, v in res.get("checks", {}).items() if v["alarm"])}
         json.dump(meta, open(os.path.join(dst, "meta.json"), "w"), indent=1)
         rows.append(meta)
+rows = []
+for d in sorted(os.listdir(OUT)):
+    mf = os.path.join(OUT, d, "meta.json")
+    if os.path.exists(mf):
+        rows.append(json.load(open(mf)))
 with open(os.path.join(OUT, "README.md"), "w") as f:
     f.write("# Behaviour-preserving changes\n\nRefactorings written by sub-agents that saw only the library and were asked to keep every\n"
             "observable behaviour (values, bytes, which calls fail, retention rules) while changing internals.\n"
